@@ -2,6 +2,7 @@ import WR.Base.Sexp
 import WR.C04.Model
 import WR.Gen.C04Tables
 import WR.C04.RefTable
+import WR.C04.Lengths
 open WR WR.Sexp WR.C04
 
 namespace Driver.C04
@@ -32,6 +33,29 @@ def putVal : Val → Sexp
   | .kw s => .list [.atom "kw", .str s]
   | .int n => .list [.atom "int", ofInt n]
   | .union a b => .list [.atom "union", putVal a, putVal b]
+
+/-- generic value AST: (l x u) | (k "s") | (n "tag" child …); fuel bounds the nesting depth -/
+def getLVF : Nat → Sexp → Option LV
+  | 0, _ => none
+  | f + 1, x =>
+    match x with
+    | .list [.atom "l", x, u] => do some (.len (← x.asRat?) (← u.asNat?))
+    | .list [.atom "k", .str s] => some (.kw s)
+    | .list (.atom "n" :: .str t :: cs) => do
+      let cs ← cs.mapM (getLVF f)
+      some (.node t (cs.foldr LVs.cons LVs.nil))
+    | _ => none
+
+def putLVF : Nat → LV → Sexp
+  | 0, _ => .atom "deep"
+  | f + 1, v =>
+    match v with
+    | .len x u => .list [.atom "l", ofRat x, ofNat u]
+    | .kw s => .list [.atom "k", .str s]
+    | .node t cs => .list (.atom "n" :: .str t :: go f cs)
+where go (f : Nat) : LVs → List Sexp
+  | .nil => []
+  | .cons h t => putLVF f h :: go f t
 
 def getDecl : Sexp → Option (Nat × Decl)
   | .list [p, .atom "inh"] => do some ((← p.asNat?), .inherit)
@@ -78,6 +102,14 @@ def handle (req : Sexp) : Sexp :=
         | _ => none
       let out := run T (State.fresh T) reqs
       some (ok [.list (out.2.map putVal), .list (reqs.map fun (c, p) => putVal (computed T c p))])
+    -- the generic length traversal: ((fs rootFS exR chR value) …) ↦ computed values
+    | .list [.atom "lens", .list items] => do
+      let outs ← items.mapM fun
+        | .list [fs, rfs, ex, ch, v] => do
+          let c : FontCtx := { fs := ← fs.asRat?, rootFS := ← rfs.asRat?, exR := ← ex.asRat?, chR := ← ch.asRat? }
+          some (putLVF 64 (computeLengths c (← getLVF 64 v)))
+        | _ => none
+      some (ok outs)
     | .list [.atom "nb"] => some (ok [ofNat WR.Gen.C04Tables.nbProperties])
     | _ => none
   r.getD (Sexp.err "c04: unknown or malformed request")
